@@ -454,8 +454,17 @@ func (c *Ctx) ruleA3(rule string, fn *ssa.Function) []*seqLoop {
 		}
 		// every element is executed: the call is not under a further condition inside the loop
 		// (a test whose other edge leaves the loop is one of the loop's exits and is judged there)
+		// a nil entry of the list is not a rule: a test that only skips a nil element neither
+		// skips a rule nor is it a way out of the loop that needs a reason
+		isElemNilTest := func(cond ssa.Value) bool {
+			sbj, _, ok := nilCheck(cond)
+			return ok && len(e.call.Call.Args) > 0 && (x.sameValue(sbj, e.call.Call.Args[0]) || x.Origin(sbj) == x.Origin(e.call.Call.Args[0]))
+		}
 		var gs []Guard
 		for _, g := range x.GuardsOfInLoop(e.call.Block()) {
+			if isElemNilTest(g.Cond) {
+				continue
+			}
 			leaves := false
 			for _, sc := range g.If.Block().Succs {
 				if !L.Blocks[sc] {
@@ -524,6 +533,9 @@ func (c *Ctx) ruleA3(rule string, fn *ssa.Function) []*seqLoop {
 						} else {
 							other = "exit under err == nil"
 						}
+						continue
+					}
+					if isElemNilTest(g.Cond) {
 						continue
 					}
 					if bPar != nil && x.Origin(g.Cond) == ssa.Value(bPar) {
